@@ -684,49 +684,3 @@ Proof.
   unfold pay. replace (tot <? 0) with false by (symmetry; apply Z.ltb_ge; exact Hn).
   destruct (bget (c_bank s) creator <? tot); split; intros H; try reflexivity; discriminate.
 Qed.
-
-(* ---- x/orderbook/keeper/orderbook_settle.go settleParticipation, generated: the payments and hook calls it makes are emitted as effects in
-   order; the stored participation is the last SetOrderBookParticipation.  It IS the model's settle_participation. ----------------------------- *)
-Definition eff_code (e : effect) : Z * Z * Z * Z :=
-  match e with
-  | Pay f t a => (0, f, t, a)
-  | HookWin a l p => (1, a, l, p)
-  | HookLoss a l p => (2, a, l, p)
-  | HookRefund a x => (3, a, x, 0)
-  | HookFeeRefund a x => (4, a, x, 0)
-  end.
-Definition settle_state (effs : list effect) (stored : part) : S_settle :=
-  {| S_settle_Effects := map eff_code effs; S_settle_Stored := gp_of stored |}.
-Definition gmk (status creator : Z) : G_Market :=
-  {| G_Market_UID := 0; G_Market_StartTS := 0; G_Market_EndTS := 0; G_Market_Odds := []; G_Market_WinnerOddsUIDs := []; G_Market_Status := status;
-     G_Market_ResolutionTS := 0; G_Market_Creator := creator; G_Market_Meta := 0; G_Market_BookUID := 0 |}.
-
-(* (an unsettled participation has no reimbursed fee recorded: the code leaves the field alone when the fee goes to the market creator,
-   the model writes 0) *)
-Lemma gen_settleParticipation effs0 stored0 p mstatus creator : p_reimb p = 0 ->
-  K_settle_settleParticipation (settle_state effs0 stored0) (gp_of p) (gmk mstatus creator) =
-  match settle_participation p mstatus creator with
-  | None => None
-  | Some (p', effs) => Some (settle_state (effs0 ++ effs) p')
-  end.
-Proof.
-  intros HR0.
-  unfold K_settle_settleParticipation, settle_participation, settle_state, MK_DECLARED, MK_CANCELED, MK_ABORTED, POOL, HOUSEFEE.
-  cbn [gp_of G_OrderBookParticipation_IsSettled]. destruct (p_settled p) eqn:ES; [reflexivity|].
-  cbn [gmk G_Market_Status G_Market_Creator].
-  unfold K_OrderBookParticipation_NotParticipatedInBetFulfillment,
-    set_G_OrderBookParticipation_ReturnedAmount, set_G_OrderBookParticipation_ReimbursedFee, set_G_OrderBookParticipation_IsSettled.
-  cbn [gp_of G_OrderBookParticipation_Index G_OrderBookParticipation_OrderBookUID G_OrderBookParticipation_ParticipantAddress G_OrderBookParticipation_Liquidity
-       G_OrderBookParticipation_Fee G_OrderBookParticipation_CurrentRoundLiquidity G_OrderBookParticipation_ExposuresNotFilled
-       G_OrderBookParticipation_TotalBetAmount G_OrderBookParticipation_CurrentRoundTotalBetAmount G_OrderBookParticipation_MaxLoss
-       G_OrderBookParticipation_CurrentRoundMaxLoss G_OrderBookParticipation_CurrentRoundMaxLossOddsUID G_OrderBookParticipation_ActualProfit
-       G_OrderBookParticipation_IsSettled G_OrderBookParticipation_ReturnedAmount G_OrderBookParticipation_ReimbursedFee
-       set_S_settle_Effects set_S_settle_Stored S_settle_Effects S_settle_Stored].
-  destruct (mstatus =? 5).
-  - destruct (p_tba p =? 0); destruct (p_profit p <? 0); cbv zeta;
-      rewrite !map_app, <- !app_assoc; cbn [map eff_code app part_settle gp_of p_idx p_owner p_liq p_fee p_crl p_enf p_tba p_crtb p_maxloss p_crml
-        p_crml_odds p_profit p_settled p_returned p_reimb]; rewrite ?HR0; reflexivity.
-  - destruct ((mstatus =? 3) || (mstatus =? 4)); [|reflexivity].
-    rewrite !map_app, <- !app_assoc. cbn [map eff_code app part_settle gp_of p_idx p_owner p_liq p_fee p_crl p_enf p_tba p_crtb p_maxloss p_crml
-        p_crml_odds p_profit p_settled p_returned p_reimb]. reflexivity.
-Qed.
